@@ -68,6 +68,8 @@ BLIND = {  # did the owning check exist, unchanged, before the change was seen?
     'b18-C03': 'yes - caught (C03.R2 operand-selection table: positions of a repeated operand; whole-pipeline simulation C03.R14 = C01.R16: DEQUANTIZE converts int8 to int8)',
     'b18-C12': 'yes - MISSED by every check (R4 validated the shipped files against the declared schema and R7 only loads exported recipes, which always carry op_config); C12.R8 hands every shipped recipe file to the repository\'s own load_quantization_recipe on the path interpreter: KeyError for sample_advanced_usage_recipe.json',
     'b18-C18': 'yes - MISSED by every check (get_constant_tensor_names was a stand-in in the validation simulation); C18.R12 runs the subgraph-indexed helpers on a stand-in interpreter whose two subgraphs number their tensors differently',
+    'b19-C09': 'yes - missed by C09 (C10.R7 reported: operators initialised differ from the operators quantized); the selection simulation is part of C09 now (C09.R13): the first pass must initialise the constants of every operator that will be quantized, also in another signature\'s subgraph, or a run resumed from the returned result lacks them',
+    'b19-C16': 'yes - caught (C16.R6 layout decision table: a 16-byte constant is stripped but never appended; bytes at the recorded offset are not the constant)',
     'b17-C19': 'yes - caught (C19.R2 = C01.R8: the op-id map query, run through the class\'s own functions on models with several subgraphs)',
     'b16-C01': 'yes - only ANALYSIS-ERROR (a vertical-optimisation table row forked on the token parameters); C01.R19 = C04.R16: SOFTMAX / LOGISTIC / TANH feeding a CONCATENATION with a wide-range second input - the fixed-range output must keep the kernel parameters',
     'b16-C10': 'yes - missed by C10 (C03 / C04 / C05 / C08 sweeps reported: statistics of a runtime second operand missing); the operator sweep is part of C10 now (C10.R11)',
